@@ -122,9 +122,35 @@ Definition classify_fs (f : fsys) (ctx_cwd : option str) (proc_cwd : str) (token
    script: dirname(realpath(script)) (the link is read, then the whole path is canonicalised);
    -m: the current directory; -c / stdin: "" (the cwd at import time); nothing runs: none *)
 Inductive syspath0 := SP_none | SP_dir (d : comps) | SP_unresolvable.
+
+(* -P, or -I (which implies it), among the flags of one option cluster - before an option that takes the
+   rest of the word as its argument (-c -m -W -X) and not in a long option *)
+Fixpoint cl_safe (cs : str) : bool :=
+  match cs with
+  | [] => false
+  | c :: r =>
+      if N.eqb c 80 || N.eqb c 73 then true
+      else if N.eqb c 99 || N.eqb c 109 || N.eqb c 87 || N.eqb c 88 || N.eqb c 45 then false
+      else cl_safe r
+  end.
+(* over the n words that are python's own options (l = tokens[1:]); option arguments are skipped as CPython skips them *)
+Fixpoint safe_path_scan (n : nat) (l : list str) : bool :=
+  match n, l with
+  | S n', t :: r =>
+      cl_safe (tl t) ||
+      match cluster fl0 (tl t) (hd_error r) with
+      | CNext _ true => match n', r with S n'', _ :: r' => safe_path_scan n'' r' | _, _ => false end
+      | _ => safe_path_scan n' r
+      end
+  | _, _ => false
+  end.
+(* sys.flags.safe_path for a program found at tokens[i] *)
+Definition safe_path (tokens : list str) (i : nat) : bool := safe_path_scan (i - 1) (tl tokens).
+
 Definition py_syspath0 (f : fsys) (cwd : str) (tokens : list str) : syspath0 :=
   match py_cmdline tokens with
   | RFile i _ =>
+      if safe_path tokens i then SP_none else
       match nth_error tokens i with
       | Some tok =>
           match realpath f (pjoin cwd tok) with
@@ -133,7 +159,10 @@ Definition py_syspath0 (f : fsys) (cwd : str) (tokens : list str) : syspath0 :=
           end
       | None => SP_none
       end
-  | RModule _ _ _ | RCommand _ _ _ | RStdin _ =>
+  | RModule i _ _ | RCommand i _ _ =>
+      if safe_path tokens i then SP_none else
+      match realpath f cwd with Some q => SP_dir q | None => SP_unresolvable end
+  | RStdin _ =>
       match realpath f cwd with Some q => SP_dir q | None => SP_unresolvable end
   | RUsageError | RInfo => SP_none
   end.
